@@ -343,7 +343,7 @@ def run_variant(params, known):
 
 def run_container_histories(params, known):
     '''What an application may do with the container it hands to send_bundle(): (1) leave the
-    numbering of its extension blocks to the agent (no block numbers given, two and three extension
+    numbering of its extension blocks to the agent (no block numbers given; 2, 3, 8, 12 and 23 extension
     blocks); (2) use one container again for its next bundle (new blocks with the same numbers) -
     bundles of 700, 333, 40 and 650 octets in a row over an MTU-200 route.  Every bundle is judged
     like any other: transmissions within the MTU, identity, fragments tiling the payload of THIS
@@ -387,8 +387,8 @@ def run_container_histories(params, known):
             viol('fragments-do-not-tile-the-payload', 'octets covered 0 times: %d, more than once: %d'
                  % (sum(1 for c in cover if c == 0), sum(1 for c in cover if c > 1)), case)
     # (1) agent-numbered extension blocks
-    for next_ in (2, 3):
-        for (length, mtu) in ((40, None), (40, 400), (700, 200)):
+    for next_ in (2, 3, 8, 12, 23):
+        for (length, mtu) in ((40, None), (40, 400 + 12 * next_), (700, 200 + 8 * next_), (700, 260 + 8 * next_)):
             for crc in (0, 1):
                 count += 1
                 case = dict(extension_blocks_without_number=next_, length=length, mtu=mtu, crc=crc)
@@ -401,6 +401,8 @@ def run_container_histories(params, known):
                 world.send(ctr)
                 world.quiesce()
                 keys.add('numbered-by-agent/%d/%d/%s/%d' % (next_, length, mtu, crc))
+                if world.api_errors and 'too large for route MTU' in world.api_errors[-1][1] and not world.sent():
+                    continue        # the blocks alone exceed this MTU: refused, nothing left the node
                 if world.escaped or world.api_errors:
                     esc = (world.escaped or world.api_errors)[-1]
                     viol('exception-escaped', '%s: %s' % (esc[0], esc[2] if world.escaped else esc[1]), case)
@@ -528,7 +530,7 @@ ASSUMPTIONS = [
     'payload lengths 0..60, 250..262, 65530..65541; MTUs from just below the empty first fragment up to the whole bundle, '
     'for long payloads MTUs that give 1-3 fragments and the 255/256/65535/65536 boundaries',
     '"nothing sent" is accepted when one-octet fragments would not fit with a conservative slack for worst-case length heads (and for an added integrity block)',
-    'the application leaves the numbering of two / three extension blocks to the agent; one container used again for the next bundle (four bundles in a row over an MTU-200 route)',
+    'the application leaves the numbering of 2 / 3 / 8 / 12 / 23 extension blocks to the agent; one container used again for the next bundle (four bundles in a row over an MTU-200 route)',
     'a second transmit route (other next hop, MTU 80 / 150 / 600 / none) appended before the request, right after it, or after one loop turn, while the fragments of a 300- / 1000-octet bundle wait to be sent',
     'integrity policy: one COSE_Mac0 BIB over the payload applied by the source',
 ]
